@@ -415,6 +415,6 @@ func TestFirstUse(t *testing.T) {
 		Classes: func(p plan) []string {
 			return []string{fmt.Sprintf("goroutines-%d", (len(p.Assign)+7)/8*8)}
 		},
-		Quick: 12, Thorough: 300,
+		Quick: 12, Thorough: 120,
 	})
 }
